@@ -11,7 +11,13 @@ From Coq Require Import Lqa.
 (* one call of random.expovariate, annotated *)
 Inductive clk :=
 | KRec (v : node) (start d : Q)                       (* duration of v's infection that starts at [start] *)
-| KAtt (u v : node) (start d : Q) (redraw : bool).    (* next attempt of the pair (u,v), counted from [start] *)
+| KAtt (u v : node) (k : nat) (start d : Q) (redraw : bool).
+    (* next attempt of the pair (u,v) during u's k-th infectious period, counted from [start];
+       redraw = true: the single redraw from rec_time[v] *)
+
+(* how often u has been infected so far (the ordinal of its current infectious period) *)
+Definition inf_count (elog : list (Q * node * N)) (u : node) : nat :=
+  length (filter (fun e => N.eqb (snd (fst e)) u && N.eqb (snd e) stI) elog).
 
 Section Rel.
 Variable g : graph.
@@ -21,13 +27,15 @@ Variable tmax : xtime.
 Definition clk_call (c : clk) : call * Q :=
   match c with
   | KRec v _ d => (CExpo (rec_rate g gamma v), d)
-  | KAtt u v _ d _ => (CExpo (trans_rate g tau u v), d)
+  | KAtt u v _ _ d _ => (CExpo (trans_rate g tau u v), d)
   end.
 
 (* Q.add of the next attempt of (src,tgt) at t, if t < rec_time[src] and t < tmax *)
 Definition fin_state (src tgt : node) (s : mst) (t : Q) : mst :=
   if xtlt (Some t) (ms_rec s src) && xlt t tmax
   then set_q s (q_add tmax (ms_q s) t (MTrans (Some src) tgt)) else s.
+
+Definition per (s : mst) (u : node) : nat := inf_count (l_elog (ms_log s)) u.
 
 (* _find_next_trans_SIS_Markov *)
 Inductive fn_rel (time : Q) (src tgt : node) (s : mst) : mst -> list clk -> Prop :=
@@ -36,10 +44,11 @@ Inductive fn_rel (time : Q) (src tgt : node) (s : mst) : mst -> list clk -> Prop
     fn_rel time src tgt s s []
 | fn_one : forall d, xtlt (ms_rec s tgt) (ms_rec s src) = true -> 0 < trans_rate g tau src tgt -> 0 <= d ->
     xtlt (Some (tadd time d)) (ms_rec s tgt) = false ->
-    fn_rel time src tgt s (fin_state src tgt s (tadd time d)) [KAtt src tgt time d false]
+    fn_rel time src tgt s (fin_state src tgt s (tadd time d)) [KAtt src tgt (per s src) time d false]
 | fn_two : forall d r d2, xtlt (ms_rec s tgt) (ms_rec s src) = true -> 0 < trans_rate g tau src tgt -> 0 <= d ->
     ms_rec s tgt = Some r -> tadd time d < r -> 0 <= d2 ->
-    fn_rel time src tgt s (fin_state src tgt s (tadd r d2)) [KAtt src tgt time d false; KAtt src tgt r d2 true].
+    fn_rel time src tgt s (fin_state src tgt s (tadd r d2))
+           [KAtt src tgt (per s src) time d false; KAtt src tgt (per s src) r d2 true].
 
 Lemma if_k : forall {A B} (b : bool) (k : A -> B) x y, (if b then k x else k y) = k (if b then x else y).
 Proof. intros A B [|] k x y; reflexivity. Qed.
@@ -62,12 +71,12 @@ Proof.
       change (match ms_rec s src with Some y => Qltb (tadd r d2) y | None => true end)
         with (xtlt (Some (tadd r d2)) (ms_rec s src)) in Hk2.
       rewrite (if_k _ k) in Hk2.
-      exists (fin_state src tgt s (tadd r d2)), [KAtt src tgt time d false; KAtt src tgt r d2 true], tr2.
+      exists (fin_state src tgt s (tadd r d2)), [KAtt src tgt (per s src) time d false; KAtt src tgt (per s src) r d2 true], tr2.
       split; [apply (fn_two time src tgt s d r d2); try assumption; rewrite Er; exact G|]. split; [exact Hk2|reflexivity].
     + change (match ms_rec s src with Some y => Qltb (tadd time d) y | None => true end)
         with (xtlt (Some (tadd time d)) (ms_rec s src)) in Hk.
       rewrite (if_k _ k) in Hk.
-      exists (fin_state src tgt s (tadd time d)), [KAtt src tgt time d false], tr1.
+      exists (fin_state src tgt s (tadd time d)), [KAtt src tgt (per s src) time d false], tr1.
       split; [apply fn_one; try assumption; [rewrite Er; exact G|rewrite Er; exact Hre]|]. split; [exact Hk|reflexivity].
   - destruct (Qeqb rate 0) eqn:Hz; [|inversion H].
     apply Qeqb_true in Hz. cbn [xtlt] in H.
